@@ -111,6 +111,9 @@ def roundtrip(req):
         else:
             yaml.dump(req["options"], f)
     out = dict(steps=[])
+    if req.get("only_write"):
+        print("@@JSON " + json.dumps(dict(written=gpath)))
+        return
     dirs = {}
     for tag in ("A", "A2"):
         d = os.path.join(wd, tag)
